@@ -445,7 +445,7 @@ def rule_tokencheck(chk, prog, tier):
 
 def rule_deferred(chk, prog, tier):
     r = chk.rule('C11.i', 'a diagnostic raised after the construct has been left - an undefined label at the end of the function, an incomplete tentative definition at the end of the unit - names the line where the construct '
-                 '(the goto, the declaration) was seen, not the token the parser has reached by then', floor=4)
+                 '(the goto, the declaration) was seen, not the token the parser has reached by then', floor=5)
     fg = prog.require_func('funcgoto', 'qbe.c')
     df = prog.require_func('delfunc', 'qbe.c')
     etd = prog.require_func('emittentativedefns', 'decl.c')
@@ -485,6 +485,45 @@ def rule_deferred(chk, prog, tier):
         ok = runs[0].value in ((5,) if nuses == 1 else (5, 8))
         r.instance(ok, 'deferred:undefined-label,%d goto%s' % (nuses, 's' if nuses > 1 else ''), 'qbe.c:%s' % df.get('line'),
                    'the goto statement%s on line %s; the diagnostic names line %s (the parser is at line 12 when the function ends)' % ('s are' if nuses > 1 else ' is', '5 and 8' if nuses > 1 else '5', runs[0].value))
+    # ---- the same through the statement parser: the location is captured while the goto statement is still the current construct
+    st_fn = prog.require_func('stmt', 'stmt.c')
+    def runner(it):
+        w = World(prog, it=it, target='x86_64-sysv')
+        seen = {}
+        it.models.update(cmodel.backend_models(prog))
+        toks = [('TGOTO', 5, 2), ('TIDENT', 5, 7), ('TSEMICOLON', 5, 14), ('TRBRACE', 9, 1), ('TEOF', 12, 1)]
+        tokobj = it.gobj('tok'); stt = {'i': 0}
+        lit = Ptr(it.mkstr(list(b'nowhere'), 'n'), (0,)); fname = Ptr(it.mkstr(list(b'cur.c'), 'f'), (0,))
+        def load():
+            k, line, col = toks[min(stt['i'], len(toks) - 1)]
+            tokobj.f[('kind',)] = ev(prog, k); tokobj.f[('lit',)] = lit if k == 'TIDENT' else None
+            tokobj.f[('loc', 'file')] = fname; tokobj.f[('loc', 'line')] = line; tokobj.f[('loc', 'col')] = col
+        def nxt(i2, a, e): stt['i'] += 1; load(); return None
+        def expect(i2, a, e):
+            if tokobj.f[('kind',)] != a[0]: raise Terminal('error', 'expected token')
+            l = tokobj.f[('lit',)]; nxt(i2, a, e); return l
+        def consume(i2, a, e):
+            if tokobj.f[('kind',)] != a[0]: return 0
+            nxt(i2, a, e); return 1
+        it.models.update({'error': errmodel(seen), 'xmalloc': lambda i2, a, e: Ptr(Obj('heap@%s' % e.get('line'), 'heap'), ()), 'free': lambda i2, a, e: None,
+                          'mkblock': lambda i2, a, e: Ptr(Obj('block', 'heap'), ()), 'next': nxt, 'expect': expect, 'consume': consume, 'attr': lambda i2, a, e: 0,
+                          'funcjmp': lambda i2, a, e: None})
+        f = Obj('func', 'heap'); f.f[('start',)] = None; f.f[('end',)] = None
+        for k in ('len', 'cap'): f.f[('gotos', k)] = 0
+        f.f[('gotos', 'keys')] = None; f.f[('gotos', 'vals')] = None
+        it.call('mapinit', [Ptr(f, ('gotos',)), 8])
+        sc = Obj('scope', 'heap'); sc.f.update({('parent',): None, ('breaklabel',): None, ('continuelabel',): None, ('switchcases',): None, ('decls', 'len'): 0, ('tags', 'len'): 0})
+        load()
+        it.call(st_fn, [Ptr(f, ()), Ptr(sc, ())])
+        stt['i'] = len(toks) - 1; load()
+        try: it.call(df, [Ptr(f, ())])
+        except Terminal: pass
+        return seen.get('loc', 'no diagnostic')
+    runs = explore(prog, runner, {}, max_runs=4, on_unsupported='keep')
+    if len(runs) != 1 or runs[0].outcome != 'return':
+        raise AnalysisBroken('stmt goto: %s %s' % (runs[0].outcome if runs else '?', runs[0].detail if runs else ''))
+    r.instance(runs[0].value == 5, 'deferred:undefined-label,through-stmt', 'stmt.c:%s' % st_fn.get('line'),
+               '`goto nowhere;` on line 5 followed by a token on line 9; the diagnostic names line %s' % (runs[0].value,))
     # ---- tentative definition whose type is still incomplete at the end of the unit
     for what in ('void', 'struct'):
         def runner(it):
